@@ -306,9 +306,292 @@ def unit_sort_multiset(nmax):
         ])
 
 
+NEIGH = "src/Neigh/NeighMoving.cpp"
+
+
+def moving_prelude(nmax, smax):
+    # PRECNT(k, s): number of positions i < k of _movingInd whose *entry* sector is s
+    precnt = " + ".join("((%d < (k)) & (vf_r0[W_ind[%d]] == (s)))" % (i, i) for i in range(nmax))
+    notin = " && ".join("(%d >= nsel || W_ind[%d] != (j))" % (i, i) for i in range(nmax))
+    return """
+#define PRECNT(k, s) (%s)
+#define NOTIN(j) (%s)
+/* binding of the NeighMoving members / getters used by the extracted bodies */
+int S_nsect, S_nsmax, S_nmaxi;
+int S_Nsect[SMAX], S_Isect[SMAX];
+int vf_r0[NMAX];                 /* ghost: sector of every sample at entry */
+#define getNSect() (S_nsect)
+#define getNSMax() (S_nsmax)
+#define getNMaxi() (S_nmaxi)
+#define _movingInd W_ind
+#define _movingNsect S_Nsect
+#define _movingIsect S_Isect
+""" % (precnt, notin)
+
+
+def q_distinct(nmax):
+    cl = []
+    for a in range(nmax):
+        for b in range(a + 1, nmax):
+            cl.append("(%d >= nsel || W_ind[%d] != W_ind[%d])" % (b, a, b))
+    return " && ".join(cl) if cl else "1"
+
+
+def unit_sector_nsmax(nmax, smax):
+    pre = [
+        "__CPROVER_requires(0 <= nsel && nsel <= NMAX && 1 <= S_nsect && S_nsect <= SMAX && 1 <= S_nsmax)",
+        "__CPROVER_requires(__CPROVER_forall { int ka; (0 <= ka && ka < NMAX) ==> (0 <= W_ind[ka] && W_ind[ka] < NMAX) })",
+        "__CPROVER_requires(%s)" % q_distinct(nmax),
+        "__CPROVER_requires(__CPROVER_forall { int kb; (0 <= kb && kb < NMAX) ==> (-1 <= ranks[kb] && ranks[kb] < S_nsect && vf_r0[kb] == ranks[kb]) })",
+        "__CPROVER_assigns(__CPROVER_object_whole(ranks))",
+        # every candidate, in closest-first order: kept iff fewer than nsmax earlier candidates share its sector
+        "__CPROVER_ensures(__CPROVER_forall { int kc; (0 <= kc && kc < NMAX) ==> (kc >= nsel || vf_r0[W_ind[kc]] < 0 || "
+        "ranks[W_ind[kc]] == (PRECNT(kc, vf_r0[W_ind[kc]]) < S_nsmax ? vf_r0[W_ind[kc]] : -1)) })",
+        "__CPROVER_ensures(__CPROVER_forall { int kd; (0 <= kd && kd < NMAX) ==> (kd >= nsel || vf_r0[W_ind[kd]] >= 0 || ranks[W_ind[kd]] == -1) })",
+        # samples that are not candidates are untouched
+        "__CPROVER_ensures(__CPROVER_forall { int ke; (0 <= ke && ke < NMAX) ==> (!NOTIN(ke) || ranks[ke] == vf_r0[ke]) })",
+    ]
+    state = ("__CPROVER_forall { int k%s; (0 <= k%s && k%s < NMAX) ==> (k%s >= nsel || "
+             "((0 <= vf_r0[W_ind[k%s]] && (vf_r0[W_ind[k%s]] < isect%s)) ? "
+             "ranks[W_ind[k%s]] == (PRECNT(k%s, vf_r0[W_ind[k%s]]) < S_nsmax ? vf_r0[W_ind[k%s]] : -1) : "
+             "ranks[W_ind[k%s]] == vf_r0[W_ind[k%s]])) }")
+    outer = "\n".join([
+        "__CPROVER_assigns(isect, __CPROVER_object_whole(ranks))",
+        "__CPROVER_loop_invariant(0 <= isect && isect <= S_nsect)",
+        "__CPROVER_loop_invariant(%s)" % (state % (("f",) * 6 + ("",) + ("f",) * 6)),
+        "__CPROVER_loop_invariant(__CPROVER_forall { int kg; (0 <= kg && kg < NMAX) ==> (!NOTIN(kg) || ranks[kg] == vf_r0[kg]) })",
+        "__CPROVER_decreases(S_nsect - isect)",
+    ])
+    inner_extra = " || (vf_r0[W_ind[kh]] == isect && kh < i)"
+    inner = "\n".join([
+        "__CPROVER_assigns(i, n_ang, __CPROVER_object_whole(ranks))",
+        "__CPROVER_loop_invariant(0 <= i && i <= nsel && 0 <= isect && isect < S_nsect)",
+        "__CPROVER_loop_invariant(n_ang == (PRECNT(i, isect) < S_nsmax ? PRECNT(i, isect) : S_nsmax))",
+        "__CPROVER_loop_invariant(%s)" % (state % (("h",) * 6 + (inner_extra,) + ("h",) * 6)),
+        "__CPROVER_loop_invariant(__CPROVER_forall { int km; (0 <= km && km < NMAX) ==> (!NOTIN(km) || ranks[km] == vf_r0[km]) })",
+        "__CPROVER_decreases(nsel - i)",
+    ])
+    fn = Fn("NeighMoving::_movingSectorNsmax", NEIGH,
+            r"^void NeighMoving::_movingSectorNsmax\(int nsel, VectorInt& ranks\)\s*$",
+            csig="void NeighMoving__movingSectorNsmax(int nsel, int* ranks)",
+            contract="\n".join(pre), loops={1: outer, 2: inner})
+    harness = """
+void vf_harness(void)
+{
+  vf_havoc_inputs();
+  S_nsect = W_nsect; S_nsmax = W_nsmax;
+  for (int k = 0; k < NMAX; k++) vf_r0[k] = W_ranks[k];
+  NeighMoving__movingSectorNsmax(W_nsel, W_ranks);
+  VF_REACH();
+}
+"""
+    native = r"""
+static void vf_native(void)
+{
+  int nsel = W_nsel; S_nsect = W_nsect; S_nsmax = W_nsmax;
+  if (!(0 <= nsel && nsel <= NMAX && 1 <= S_nsect && S_nsect <= SMAX && 1 <= S_nsmax)) exit(77);
+  for (int k = 0; k < NMAX; k++) { if (W_ind[k] < 0 || W_ind[k] >= NMAX) exit(77);
+    if (W_ranks[k] < -1 || W_ranks[k] >= S_nsect) exit(77); vf_r0[k] = W_ranks[k]; }
+  for (int a = 0; a < nsel; a++) for (int b = a + 1; b < nsel; b++) if (W_ind[a] == W_ind[b]) exit(77);
+  NeighMoving__movingSectorNsmax(nsel, W_ranks);
+  for (int k = 0; k < nsel; k++) {
+    int j = W_ind[k], s = vf_r0[j], c = 0;
+    for (int i = 0; i < k; i++) if (vf_r0[W_ind[i]] == s) c++;
+    if (s >= 0) __CPROVER_assert(W_ranks[j] == (c < S_nsmax ? s : -1), "candidate kept iff fewer than nsmax closer candidates in its sector");
+    else __CPROVER_assert(W_ranks[j] == -1, "discarded candidate stays discarded");
+  }
+  for (int j = 0; j < NMAX; j++) { int in = 0; for (int k = 0; k < nsel; k++) if (W_ind[k] == j) in = 1;
+    if (!in) __CPROVER_assert(W_ranks[j] == vf_r0[j], "non-candidate untouched"); }
+}
+"""
+    return Unit(
+        "C06.movingSectorNsmax", [fn], prelude=moving_prelude(nmax, smax), harness=harness,
+        inputs=[("int", "W_ind", "NMAX"), ("int", "W_ranks", "NMAX"), ("int", "W_nsel"), ("int", "W_nsect"), ("int", "W_nsmax")],
+        defines={"NMAX": nmax, "SMAX": smax}, enforce="NeighMoving__movingSectorNsmax", backends=("minisat", "cadical"), timeout=900,
+        native=native, split=True,
+        claim=("NeighMoving::_movingSectorNsmax keeps, in every angular sector, exactly the first nsmax candidates in "
+               "closest-first order and discards the later ones; other samples untouched (both loops closed by invariants; "
+               "candidates <= %d, sectors <= %d)" % (nmax, smax)),
+        assumptions=["at most %d candidates / samples and %d sectors (quantifier ranges)" % (nmax, smax),
+                     "binding prelude maps getNSect()/getNSMax()/_movingInd onto plain C globals; VectorInt& ranks -> int*",
+                     "candidate ranks in _movingInd are distinct and within the Db (established by NeighMoving::_moving)"],
+        canaries=[
+            {"fn": "NeighMoving::_movingSectorNsmax", "rx": r"if \(n_ang < getNSMax\(\)\)", "rp": "if (n_ang <= getNSMax())",
+             "expect": r"movingSectorNsmax\.(postcondition|loop_invariant_step)"},
+        ])
+
+
+def unit_moving_select(nmax, smax):
+    tot = " + ".join("((%d < nsel) & (vf_r0[W_ind[%d]] >= 0))" % (i, i) for i in range(nmax))
+    pretot = " + ".join("((%d < (k)) & (vf_r0[W_ind[%d]] >= 0))" % (i, i) for i in range(nmax))
+    sumq = " + ".join("(%d < S_nsect ? S_Isect[%d] : 0)" % (t, t) for t in range(smax))
+    extra = """
+#define TOT (%s)
+#define PRETOT(k) (%s)
+#define SUMQ (%s)
+#define NS(s) PRECNT(nsel, s)
+""" % (tot, pretot, sumq)
+
+    def pairs(body):  # forall s,t < nsect, expanded
+        cl = []
+        for a in range(smax):
+            for b in range(smax):
+                cl.append("(%d >= S_nsect || %d >= S_nsect || (%s))" % (a, b, body.replace("$s", str(a)).replace("$t", str(b))))
+        return " && ".join(cl)
+
+    def each(body):
+        return " && ".join("(%d >= S_nsect || (%s))" % (a, body.replace("$s", str(a))) for a in range(smax))
+
+    FAIR = pairs("S_Isect[$s] >= S_Nsect[$s] || S_Isect[$t] <= S_Isect[$s] || (S_Isect[$t] == S_Isect[$s] + 1 && $t < $s)")
+    FAIRN = pairs("S_Isect[$s] >= NS($s) || S_Isect[$t] <= S_Isect[$s] || (S_Isect[$t] == S_Isect[$s] + 1 && $t < $s)")
+    ROUND = pairs("S_Isect[$s] >= S_Nsect[$s] || S_Isect[$t] <= S_Isect[$s]")
+    INV = pairs("S_Isect[$s] >= S_Nsect[$s] || S_Isect[$t] <= S_Isect[$s] || "
+                "(S_Isect[$t] == S_Isect[$s] + 1 && $t < $s && $t < isect && $s >= isect)") + " && " + pairs(
+                "!($s < isect && $t >= isect && S_Isect[$s] < S_Nsect[$s]) || S_Isect[$t] < S_Isect[$s]")
+    QRANGE = each("0 <= S_Isect[$s] && S_Isect[$s] <= S_Nsect[$s]")
+    NDEF = each("S_Nsect[$s] == NS($s)")
+    NRANGE = each("0 <= S_Nsect[$s] && S_Nsect[$s] <= NMAX")
+    def state(tag, cond):
+        t = ("__CPROVER_forall { int k@; (0 <= k@ && k@ < NMAX) ==> (k@ >= nsel || "
+             "((0 <= vf_r0[W_ind[k@]] && ($COND)) ? "
+             "ranks[W_ind[k@]] == (PRECNT(k@, vf_r0[W_ind[k@]]) < S_Isect[vf_r0[W_ind[k@]]] ? vf_r0[W_ind[k@]] : -1) : "
+             "ranks[W_ind[k@]] == vf_r0[W_ind[k@]])) }")
+        return t.replace("$COND", cond).replace("@", tag)
+
+    def untouched(tag):
+        return "__CPROVER_forall { int k@; (0 <= k@ && k@ < NMAX) ==> (!NOTIN(k@) || ranks[k@] == vf_r0[k@]) }".replace("@", tag)
+
+    def same(tag):
+        return "__CPROVER_forall { int k@; (0 <= k@ && k@ < NMAX) ==> (ranks[k@] == vf_r0[k@]) }".replace("@", tag)
+    contract = "\n".join([
+        "__CPROVER_requires(0 <= nsel && nsel <= NMAX && 1 <= S_nsect && S_nsect <= SMAX)",
+        "__CPROVER_requires(__CPROVER_forall { int ka; (0 <= ka && ka < NMAX) ==> (0 <= W_ind[ka] && W_ind[ka] < NMAX) })",
+        "__CPROVER_requires(%s)" % q_distinct(nmax),
+        "__CPROVER_requires(__CPROVER_forall { int kb; (0 <= kb && kb < NMAX) ==> (-1 <= ranks[kb] && ranks[kb] < S_nsect && vf_r0[kb] == ranks[kb]) })",
+        "__CPROVER_assigns(__CPROVER_object_whole(ranks), __CPROVER_object_whole(S_Nsect), __CPROVER_object_whole(S_Isect))",
+        # fewer candidates than nmaxi (or no limit): nothing is discarded
+        "__CPROVER_ensures((S_nmaxi <= 0 || TOT < S_nmaxi) ==> %s)" % same("c"),
+        # otherwise: per-sector quotas Q = _movingIsect
+        "__CPROVER_ensures((S_nmaxi > 0 && TOT >= S_nmaxi) ==> (%s))" % each("0 <= S_Isect[$s] && S_Isect[$s] <= NS($s)"),
+        "__CPROVER_ensures((S_nmaxi > 0 && TOT >= S_nmaxi) ==> SUMQ == S_nmaxi)",
+        # quotas are those of cycling over the sectors: never two apart, the extra one goes to earlier sectors
+        "__CPROVER_ensures((S_nmaxi > 0 && TOT >= S_nmaxi) ==> (%s))" % FAIRN,
+        # each sector keeps exactly its Q closest candidates
+        "__CPROVER_ensures((S_nmaxi > 0 && TOT >= S_nmaxi) ==> %s)" % state("d", "1"),
+        "__CPROVER_ensures(%s)" % untouched("e"),
+    ])
+    L1 = "\n".join([
+        "__CPROVER_assigns(isect, __CPROVER_object_whole(S_Nsect), __CPROVER_object_whole(S_Isect))",
+        "__CPROVER_loop_invariant(0 <= isect && isect <= S_nsect)",
+        "__CPROVER_loop_invariant(__CPROVER_forall { int kf; (0 <= kf && kf < SMAX) ==> (kf >= isect || (S_Nsect[kf] == 0 && S_Isect[kf] == 0)) })",
+        "__CPROVER_decreases(S_nsect - isect)",
+    ])
+    L2 = "\n".join([
+        "__CPROVER_assigns(i, number, __CPROVER_object_whole(S_Nsect))",
+        "__CPROVER_loop_invariant(0 <= i && i <= nsel)",
+        "__CPROVER_loop_invariant(%s)" % each("S_Nsect[$s] == PRECNT(i, $s)"),
+        "__CPROVER_loop_invariant(number == PRETOT(i))",
+        "__CPROVER_decreases(nsel - i)",
+    ])
+    L3 = "\n".join([
+        "__CPROVER_assigns(number, __CPROVER_object_whole(S_Isect))",
+        "__CPROVER_loop_invariant(%s)" % NRANGE,
+        "__CPROVER_loop_invariant(%s)" % QRANGE,
+        "__CPROVER_loop_invariant(0 <= number && number <= S_nmaxi && number == SUMQ)",
+        "__CPROVER_loop_invariant(%s)" % FAIR,
+        "__CPROVER_loop_invariant(number >= S_nmaxi || (%s))" % ROUND,
+        "__CPROVER_decreases(S_nmaxi - number)",
+    ])
+    L4 = "\n".join([
+        "__CPROVER_assigns(isect, number, __CPROVER_object_whole(S_Isect))",
+        "__CPROVER_loop_invariant(0 <= isect && isect <= S_nsect)",
+        "__CPROVER_loop_invariant(%s)" % NRANGE,
+        "__CPROVER_loop_invariant(%s)" % QRANGE,
+        "__CPROVER_loop_invariant(0 <= number && number < S_nmaxi && number == SUMQ)",
+        "__CPROVER_loop_invariant(%s)" % INV,
+        "__CPROVER_loop_invariant(number >= __CPROVER_loop_entry(number))",
+        "__CPROVER_loop_invariant(number > __CPROVER_loop_entry(number) || (%s))" % each("$s >= isect || S_Isect[$s] >= S_Nsect[$s]"),
+        "__CPROVER_decreases(S_nsect - isect)",
+    ])
+    L5 = "\n".join([
+        "__CPROVER_assigns(isect, number, __CPROVER_object_whole(ranks))",
+        "__CPROVER_loop_invariant(0 <= isect && isect <= S_nsect)",
+        "__CPROVER_loop_invariant(%s)" % state("g", "vf_r0[W_ind[kg]] < isect"),
+        "__CPROVER_loop_invariant(%s)" % untouched("h"),
+        "__CPROVER_decreases(S_nsect - isect)",
+    ])
+    L6 = "\n".join([
+        "__CPROVER_assigns(i, number, __CPROVER_object_whole(ranks))",
+        "__CPROVER_loop_invariant(0 <= i && i <= nsel && 0 <= isect && isect < S_nsect)",
+        "__CPROVER_loop_invariant(number == PRECNT(i, isect))",
+        "__CPROVER_loop_invariant(%s)" % state("m", "vf_r0[W_ind[km]] < isect || (vf_r0[W_ind[km]] == isect && km < i)"),
+        "__CPROVER_loop_invariant(%s)" % untouched("n"),
+        "__CPROVER_decreases(nsel - i)",
+    ])
+    fn = Fn("NeighMoving::_movingSelect", NEIGH,
+            r"^void NeighMoving::_movingSelect\(int nsel, VectorInt& ranks\)\s*$",
+            csig="void NeighMoving__movingSelect(int nsel, int* ranks)",
+            contract=contract, loops={1: L1, 2: L2, 3: L3, 4: L4, 5: L5, 6: L6})
+    harness = """
+void vf_harness(void)
+{
+  vf_havoc_inputs();
+  S_nsect = W_nsect; S_nmaxi = W_nmaxi;
+  for (int k = 0; k < NMAX; k++) vf_r0[k] = W_ranks[k];
+  for (int k = 0; k < SMAX; k++) { S_Nsect[k] = W_N0[k]; S_Isect[k] = W_I0[k]; }
+  NeighMoving__movingSelect(W_nsel, W_ranks);
+  VF_REACH();
+}
+"""
+    native = r"""
+static void vf_native(void)
+{
+  int nsel = W_nsel; S_nsect = W_nsect; S_nmaxi = W_nmaxi;
+  if (!(0 <= nsel && nsel <= NMAX && 1 <= S_nsect && S_nsect <= SMAX)) exit(77);
+  for (int k = 0; k < NMAX; k++) { if (W_ind[k] < 0 || W_ind[k] >= NMAX) exit(77);
+    if (W_ranks[k] < -1 || W_ranks[k] >= S_nsect) exit(77); vf_r0[k] = W_ranks[k]; }
+  for (int a = 0; a < nsel; a++) for (int b = a + 1; b < nsel; b++) if (W_ind[a] == W_ind[b]) exit(77);
+  for (int k = 0; k < SMAX; k++) { S_Nsect[k] = W_N0[k]; S_Isect[k] = W_I0[k]; }
+  NeighMoving__movingSelect(nsel, W_ranks);
+  /* reference: cycle over the sectors */
+  int N[SMAX] = {0}, Q[SMAX] = {0}, tot = 0;
+  for (int k = 0; k < nsel; k++) if (vf_r0[W_ind[k]] >= 0) { N[vf_r0[W_ind[k]]]++; tot++; }
+  if (S_nmaxi <= 0 || tot < S_nmaxi) { for (int j = 0; j < NMAX; j++) __CPROVER_assert(W_ranks[j] == vf_r0[j], "nothing discarded when fewer than nmaxi candidates"); return; }
+  int number = 0;
+  while (number < S_nmaxi) for (int s = 0; s < S_nsect && number < S_nmaxi; s++) if (Q[s] < N[s]) { Q[s]++; number++; }
+  for (int k = 0; k < nsel; k++) {
+    int j = W_ind[k], s = vf_r0[j], c = 0;
+    for (int i = 0; i < k; i++) if (vf_r0[W_ind[i]] == s) c++;
+    if (s >= 0) __CPROVER_assert(W_ranks[j] == (c < Q[s] ? s : -1), "sector keeps exactly its round-robin quota of closest candidates");
+    else __CPROVER_assert(W_ranks[j] == -1, "discarded candidate stays discarded");
+  }
+}
+"""
+    return Unit(
+        "C06.movingSelect", [fn], prelude=moving_prelude(nmax, smax) + extra, harness=harness,
+        inputs=[("int", "W_ind", "NMAX"), ("int", "W_ranks", "NMAX"), ("int", "W_nsel"), ("int", "W_nsect"), ("int", "W_nmaxi"),
+                ("int", "W_N0", "SMAX"), ("int", "W_I0", "SMAX")],
+        defines={"NMAX": nmax, "SMAX": smax}, enforce="NeighMoving__movingSelect", backends=("minisat", "cadical"), timeout=1200,
+        native=native, split=True,
+        claim=("NeighMoving::_movingSelect: with fewer than nmaxi candidates nothing is discarded; otherwise the per-sector "
+               "quotas sum to nmaxi, are those of cycling over the sectors (differ by at most one, extra to earlier sectors, "
+               "never above availability) and each sector keeps exactly its quota of closest candidates; single sector => the "
+               "nmaxi closest.  All six loops closed by invariants incl. termination of the cycling loop "
+               "(candidates <= %d, sectors <= %d)" % (nmax, smax)),
+        assumptions=["at most %d candidates / samples and %d sectors (quantifier ranges)" % (nmax, smax),
+                     "binding prelude maps getNSect()/getNMaxi()/_movingInd/_movingNsect/_movingIsect onto plain C globals",
+                     "_movingInd sorted closest-first by VH::arrangeInPlace (trusted std::sort wrapper)"],
+        canaries=[
+            {"fn": "NeighMoving::_movingSelect", "rx": r"if \(number > _movingIsect\[isect\]\)", "rp": "if (number >= _movingIsect[isect])",
+             "expect": r"movingSelect\.(postcondition|loop_invariant_step)"},
+            {"fn": "NeighMoving::_movingSelect", "rx": r"if \(number >= getNMaxi\(\)\) break;", "rp": ";",
+             "expect": r"movingSelect\.(postcondition|loop_invariant)"},
+        ])
+
+
 def units(tier):
     nmax = int(__import__("os").environ.get("VF_NMAX", 0)) or (6 if tier == "quick" else 10)
-    return [unit_nheap_push(nmax), unit_sort_order(nmax), unit_sort_multiset(nmax)]
+    return [unit_nheap_push(nmax), unit_sort_order(nmax), unit_sort_multiset(nmax), unit_sector_nsmax(nmax, 3), unit_moving_select(nmax, 3)]
 
 
 META = {
